@@ -79,6 +79,37 @@ def main(argv=None):
             _random.seed(777)
             return fn(OPB)
         recs.append(pair("lib-%03d-%s" % (j, name), a, b, ck.rng, limit))
+    # ---- small scope: every family instance that C01 / C02 build in both classes ------------
+    from . import c01, c02
+    both = {}
+    for r in c01.instances(ck) + c02.instances(ck):
+        if r["outcome"] != "ok":
+            continue
+        key = r["id"][:-4] if r["id"].endswith(("-CNF", "-OPB")) else r["id"]
+        both.setdefault(key, {})[r["cls"]] = r
+    npairs = 0
+    for key, d in sorted(both.items()):
+        if "CNF" in d and "OPB" in d and d["CNF"]["nvars"] <= limit:
+            def sd(x):
+                o = {"outcome": "ok", "cls": x["cls"], "nvars": x["nvars"], "labels": [str(g) + ":" + ",".join(map(str, i)) for g, i in zip(x["grp"], x["idx"])]}
+                o["constraints" if x["cls"] == "OPB" else "clauses"] = x["constraints" if x["cls"] == "OPB" else "clauses"]
+                return o
+            recs.append({"id": "fam-%04d" % npairs, "a": sd(d["CNF"]), "b": sd(d["OPB"]), "argv": key})
+            npairs += 1
+    ck.count("pairs_small_scope_families", npairs)
+    # ---- command lines whose graph argument AND formula are random: only --seed is shared ------
+    seedonly = [["tseitin", "random", "gnp", "7", ".5"], ["tseitin", "randomeven", "gnd", "8", "3"],
+                ["tseitin", "randomodd", "gnm", "6", "7"], ["php", "5", "4", "2"], ["tseitin", "8", "3"],
+                ["subsetcard", "4", "2"], ["stone", "3", "pyramid", "2", "--sparse", "2"], ["op", "6", "3"],
+                ["kcolor", "3", "gnp", "6", ".5"], ["randkcnf", "3", "7", "9"], ["randkxor", "3", "7", "4", "--plant"]]
+    for j, args in enumerate(seedonly):
+        for s_ in (3, 11) if ck.quick else (0, 3, 11, 42):
+            def run(tool, name, pre, args=args, s_=s_):
+                _random.seed(pre)          # different junk before each tool: only --seed may matter
+                return cliargs.call_cli(tool, [name, "-q", "--seed", str(s_)] + args)
+            recs.append(pair("seedonly-%02d-%d" % (j, s_), lambda: run(cg, "cnfgen", 1001), lambda: run(pg, "pbgen", 2002),
+                             ck.rng, limit))
+            recs[-1]["argv"] = "--seed %d %s" % (s_, " ".join(args))
     for r in (recs[0], recs[len(recs) // 2]):
         ck.sample({"id": r["id"], "argv": r.get("argv", ""), "nvars": r["a"]["nvars"],
                    "classes": [r["a"]["cls"], r["b"]["cls"]]})
